@@ -700,6 +700,24 @@ fn map_family(cfg: &Cfg, out: &mut Out) {
     }
 }
 
+/// a short list for the Miri run of C01: the witness histories (partial consumption from both
+/// ends, clones incl. a panicking T::clone, early drop, over/under-filled builders), a depth-3
+/// sweep on small consumers/builders, and the by-value map with each early exit
+pub fn miri_cases(out: &mut Out, short: bool) {
+    witnesses(out, "c15.hist", &[0, 1, 2]);
+    for kind in [0u8, 1] {
+        let mut en = Enum { out, fam: "c15.hist", max_objs: 2, bombs: true };
+        hist_all::<E>(&mut en, kind, 2, if short { 2 } else { 3 });
+        let mut en = Enum { out, fam: "c15.hist", max_objs: 2, bombs: false };
+        hist_all::<Zs>(&mut en, kind, 2, 2);
+    }
+    for s in all_scripts(2) {
+        let args = format!("2 {}", show_list(s.iter(), |c| c.to_string()));
+        out.line("c15.map_", &args, &map_case::<2>(&s), "-", &script_tag(&s));
+        out.line("c15.from_fn_", &args, &from_fn_case::<2>(&s), "-", &script_tag(&s));
+    }
+}
+
 pub fn run(cfg: &Cfg, out: &mut Out) {
     histories(cfg, out, "c15.hist", &[0, 1, 2]);
     stress(cfg, out, "c15.hist", &[0, 1]);
